@@ -318,7 +318,7 @@ type State struct {
 	ghost   map[string]SV
 	epoch   int
 	pending map[string]int // heaps (or prefix*) havocked before their first touch -> version
-	defers  []*ssa.Defer
+	defers  []deferRec
 }
 
 func newState() *State {
@@ -340,7 +340,7 @@ func (s *State) clone() *State {
 	for k, v := range s.pending {
 		n.pending[k] = v
 	}
-	n.defers = append([]*ssa.Defer{}, s.defers...)
+	n.defers = append([]deferRec{}, s.defers...)
 	return n
 }
 
@@ -361,11 +361,41 @@ func (fx *fnExec) heap(s *State, name, sort string) Term {
 	if ver > 0 {
 		cn = fmt.Sprintf("H%dv%d$%s", s.epoch, ver, san(name))
 	}
+	fresh := !fx.declared[cn]
 	fx.declare(cn, sort)
 	t := Term{cn, sort}
 	s.heaps[name] = t
 	fx.heapSorts[name] = sort
+	if fresh && fx.refHeaps[name] && s.epoch == 0 && ver == 0 {
+		// heap well-formedness at entry: every reference stored in the entry heap is nil or was alive at entry
+		fx.closure(t, Term{"H0$$alive", arrSort(SInt, SBool)})
+	}
 	return t
+}
+
+// closure: all references held in heap h are nil or alive.
+func (fx *fnExec) closure(h Term, alive Term) {
+	fx.declare("H0$$alive", arrSort(SInt, SBool))
+	_, es, _ := arrParts(h.So)
+	if strings.HasPrefix(es, "(Array") {
+		is, _, _ := arrParts(es)
+		fx.assumps = append(fx.assumps, fmt.Sprintf("(assert (forall ((r$q Int) (i$q %s)) (! (or (= (select (select %s r$q) i$q) 0) (select %s (select (select %s r$q) i$q))) :pattern ((select (select %s r$q) i$q)))))", is, h.S, alive.S, h.S, h.S))
+		return
+	}
+	fx.assumps = append(fx.assumps, fmt.Sprintf("(assert (forall ((r$q Int)) (! (or (= (select %s r$q) 0) (select %s (select %s r$q))) :pattern ((select %s r$q)))))", h.S, alive.S, h.S, h.S))
+}
+
+func isRefLeaf(l leaf) bool {
+	if strings.HasSuffix(l.suffix, "#arr") {
+		return true
+	}
+	if l.typ != nil && l.sort == SInt {
+		switch l.typ.Underlying().(type) {
+		case *types.Pointer, *types.Map, *types.Chan:
+			return true
+		}
+	}
+	return false
 }
 
 func (fx *fnExec) heapSortFor(prefix string, l leaf) string {
@@ -382,4 +412,10 @@ func sortedKeys[V any](m map[string]V) []string {
 	}
 	sort.Strings(ks)
 	return ks
+}
+
+// deferRec: a deferred call and the condition under which the defer statement was executed.
+type deferRec struct {
+	d     *ssa.Defer
+	guard Term
 }
